@@ -183,3 +183,74 @@ def _subst(e, env):
     if not env:
         return e
     return ast.fix_missing_locations(_S(env).visit(copy.deepcopy(e)))
+
+
+# ------------------------------------------------------------------ sequence algebra
+class _Rename(ast.NodeTransformer):
+    def __init__(self, names):
+        self.names = names
+
+    def visit_Name(self, node):
+        if node.id in self.names:
+            return ast.copy_location(ast.Name(id='_', ctx=node.ctx), node)
+        return node
+
+
+def seq_eval(e, env, val=None, defs=None):
+    """Symbolic value of a sequence-building expression as a tuple of segments (source text, element map or None):
+    list(X) / tuple(X) are X, comprehensions map their source, + concatenates, names are looked up in `env`
+    (name -> segments).  Anything else is one opaque segment."""
+    val = val or {}
+    if isinstance(e, ast.Name):
+        if e.id in env:
+            return env[e.id]
+        return ((e.id, None),)
+    if isinstance(e, ast.Call) and isinstance(e.func, ast.Name) and e.func.id in ('list', 'tuple') and len(e.args) == 1 \
+            and not e.keywords:
+        return seq_eval(e.args[0], env, val, defs)
+    if isinstance(e, ast.Call) and isinstance(e.func, ast.Name) and e.func.id in ('list', 'tuple') and not e.args:
+        return ()
+    if isinstance(e, (ast.ListComp, ast.GeneratorExp)) and len(e.generators) == 1 and not e.generators[0].ifs:
+        g = e.generators[0]
+        base = seq_eval(g.iter, env, val, defs)
+        tnames = {x.id for x in ast.walk(g.target) if isinstance(x, ast.Name)}
+        m = norm(ast.fix_missing_locations(_Rename(tnames).visit(copy.deepcopy(e.elt))))
+        m = m if m != '_' else None
+        # (a parenthesised element reads the same)
+        out = []
+        for src, mp in base:
+            out.append((src, m if mp is None else ('%s . %s' % (m, mp) if m else mp)))
+        return tuple(out)
+    if isinstance(e, ast.BinOp) and isinstance(e.op, ast.Add):
+        return seq_eval(e.left, env, val, defs) + seq_eval(e.right, env, val, defs)
+    if isinstance(e, ast.IfExp):
+        t = tv(e.test, val, defs)
+        if t is not None:
+            return seq_eval(e.body if t else e.orelse, env, val, defs)
+        return ((norm(e), None),)
+    if isinstance(e, (ast.List, ast.Tuple)):
+        out = ()
+        for x in e.elts:
+            if isinstance(x, ast.Starred):
+                out += seq_eval(x.value, env, val, defs)
+            else:
+                out += (('lit:' + norm(x), None),)
+        return out
+    return ((norm(e), None),)
+
+
+def seq_exec(effects, env, val=None, defs=None):
+    """run straight-line effects over the sequence environment (assignments, .extend / .append / +=)"""
+    for s in effects:
+        if isinstance(s, ast.Assign) and len(s.targets) == 1 and isinstance(s.targets[0], ast.Name):
+            env[s.targets[0].id] = seq_eval(s.value, env, val, defs)
+        elif isinstance(s, ast.AugAssign) and isinstance(s.target, ast.Name) and isinstance(s.op, ast.Add):
+            env[s.target.id] = seq_eval(s.target, env, val, defs) + seq_eval(s.value, env, val, defs)
+        elif isinstance(s, ast.Expr) and isinstance(s.value, ast.Call) and isinstance(s.value.func, ast.Attribute) and \
+                isinstance(s.value.func.value, ast.Name) and s.value.args:
+            nme = s.value.func.value.id
+            if s.value.func.attr == 'extend':
+                env[nme] = env.get(nme, ((nme, None),)) + seq_eval(s.value.args[0], env, val, defs)
+            elif s.value.func.attr == 'append':
+                env[nme] = env.get(nme, ((nme, None),)) + (('lit:' + norm(s.value.args[0]), None),)
+    return env
